@@ -294,8 +294,59 @@ pub fn data_with_fds<'b, 'f>(bytes: &'b [u8], c: Context, fds: &'f FdTable, n_fd
 
 pub type FdMap<'a> = &'a dyn Fn(i32) -> u32;
 
+/// The string of a parsed `zvariant::Signature` held as the value of a `g`. `to_string()` keeps the
+/// parentheses of struct signatures ("(y)", "((y))"); the price is that a sequence of several
+/// complete types ("yy"), which zvariant parses to the same `Structure([y, y])` as "(yy)", comes
+/// back with parentheses — `rv_same` compares `g` values modulo that one pair (see `g_norm`).
+/// (`rv::from_value` uses `to_string_no_parens()`, which turns "(y)" into "y".)
+pub fn g_string(s: &Signature) -> String {
+    s.to_string()
+}
+
+/// Read a `zvariant::Value` back into the harness tree (like `rv::from_value`, but `g` through
+/// `g_string`).
+pub fn from_value(v: &Value<'_>, fd_index: FdMap<'_>) -> Result<RV, String> {
+    Ok(match v {
+        Value::Signature(s) => RV::G(g_string(s)),
+        Value::Value(inner) => {
+            let r = from_value(inner, fd_index)?;
+            RV::V(Box::new((r.ty(), r)))
+        }
+        Value::Array(a) => {
+            let e = rv::parse_ty(&a.element_signature().to_string())
+                .ok_or_else(|| format!("array element signature {}", a.element_signature()))?;
+            let xs = a.inner().iter().map(|x| from_value(x, fd_index)).collect::<Result<Vec<_>, _>>()?;
+            RV::Array(e, xs)
+        }
+        Value::Dict(d) => {
+            let full = d.signature().to_string();
+            let Some(Ty::Dict(k, vt)) = rv::parse_ty(&full) else {
+                return Err(format!("dict signature {full}"));
+            };
+            let xs = d
+                .iter()
+                .map(|(kk, vv)| Ok((from_value(kk, fd_index)?, from_value(vv, fd_index)?)))
+                .collect::<Result<Vec<_>, String>>()?;
+            RV::Dict(*k, *vt, xs)
+        }
+        Value::Structure(s) => RV::Struct(
+            s.fields().iter().map(|x| from_value(x, fd_index)).collect::<Result<Vec<_>, _>>()?,
+        ),
+        #[cfg(feature = "gvariant")]
+        Value::Maybe(m) => {
+            let e = rv::parse_ty(&m.value_signature().to_string())
+                .ok_or_else(|| format!("maybe signature {}", m.value_signature()))?;
+            match m.inner() {
+                None => RV::Maybe(e, None),
+                Some(x) => RV::Maybe(e, Some(Box::new(from_value(x, fd_index)?))),
+            }
+        }
+        leaf => rv::from_value(leaf, fd_index)?,
+    })
+}
+
 fn conv(v: &Value<'_>, fdmap: FdMap<'_>) -> Result<RV, zvariant::Error> {
-    rv::from_value(v, fdmap).map_err(|e| zvariant::Error::Message(format!("harness conversion: {e}")))
+    from_value(v, fdmap).map_err(|e| zvariant::Error::Message(format!("harness conversion: {e}")))
 }
 
 /// Route `variant`: decode a VARIANT (`Value`, signature `v`) → `RV::V`.
@@ -332,7 +383,7 @@ pub fn dec_dyn(ty: &Ty, d: &Data<'_, '_>, fdmap: FdMap<'_>) -> Result<(RV, usize
                 .map(|(x, n)| (RV::O(x.as_str().to_string()), n))?,
             Ty::G => d
                 .deserialize::<Signature>()
-                .map(|(x, n)| (RV::G(x.to_string_no_parens()), n))?,
+                .map(|(x, n)| (RV::G(g_string(&x)), n))?,
             Ty::H => d.deserialize::<Fd<'_>>().map(|(x, n)| (RV::H(fdmap(x.as_raw_fd())), n))?,
             Ty::V => {
                 let (v, n): (Value<'_>, usize) = d.deserialize()?;
@@ -383,11 +434,11 @@ impl<'de> DeserializeSeed<'de> for RvSeed<'_> {
             Ty::D => RV::D(f64::deserialize(d)?.to_bits()),
             Ty::S => RV::S(String::deserialize(d)?),
             Ty::O => RV::O(OwnedObjectPath::deserialize(d)?.as_str().to_string()),
-            Ty::G => RV::G(Signature::deserialize(d)?.to_string_no_parens()),
+            Ty::G => RV::G(g_string(&Signature::deserialize(d)?)),
             Ty::H => RV::H((self.fdmap)(Fd::deserialize(d)?.as_raw_fd())),
             Ty::V => {
                 let v = Value::deserialize(d)?;
-                let inner = rv::from_value(&v, self.fdmap).map_err(D::Error::custom)?;
+                let inner = from_value(&v, self.fdmap).map_err(D::Error::custom)?;
                 RV::V(Box::new((inner.ty(), inner)))
             }
             Ty::Array(_) => d.deserialize_seq(self)?,
@@ -677,7 +728,7 @@ impl Bk for Signature {
         }
     }
     fn to_rv(&self) -> RV {
-        RV::G(self.to_string_no_parens())
+        RV::G(g_string(self))
     }
 }
 impl Bk for OwnedValue {
@@ -695,7 +746,7 @@ impl Bk for OwnedValue {
         }
     }
     fn to_rv(&self) -> RV {
-        let inner = rv::from_value(self, &|_| u32::MAX).expect("harness: OwnedValue conversion");
+        let inner = from_value(self, &|_| u32::MAX).expect("harness: OwnedValue conversion");
         RV::V(Box::new((inner.ty(), inner)))
     }
 }
@@ -1150,7 +1201,7 @@ pub fn corpus(max_nodes: usize, maybe: bool, cap: usize) -> Corpus {
 /// encoding is judged.
 pub fn normalize(rv: &RV, fds: &FdTable) -> Result<RV, String> {
     let v = rv::to_value(rv, fds)?;
-    rv::from_value(&v, &|raw| fd_index(fds, raw))
+    from_value(&v, &|raw| fd_index(fds, raw))
 }
 
 // ------------------------------------------------------------------------------------------
@@ -1194,6 +1245,15 @@ impl Acc {
             .filter(|o| o.clause == v.clause && o.features == v.features)
             .count();
         self.count("violating_cases", 1);
+        // per-identity case counts (route left out), for triage and the evidence file
+        let ident = v
+            .features
+            .iter()
+            .filter(|(k, _)| k.as_str() != "route")
+            .map(|(k, v)| format!("{k}={v}"))
+            .collect::<Vec<_>>()
+            .join(",");
+        self.count(&format!("cases[{}|{}]", v.clause, ident), 1);
         if same < 2 {
             self.violations.push(v);
         }
